@@ -136,10 +136,10 @@ def run(ctx):
             if t[0] == "call" and t[1] in ("scipy.linalg.det", "numpy.linalg.det"):
                 okp, detp = False, f"determinant of {show(t[2][0])[:70]}: the permutation is not shifted from 1-based entries to 0-based column indices exactly once"
         for lp in walk_no_nested(ps.node):
-            if isinstance(lp, ast.For) and isinstance(lp.target, ast.Name):
-                pv = lp.target.id
+            if isinstance(lp, ast.For):
+                pvs = {y.id for y in ast.walk(lp.target) if isinstance(y, ast.Name)}
                 fixes = [x for x in ast.walk(lp) if isinstance(x, (ast.If, ast.While)) and isinstance(x.test, ast.Compare) and len(x.test.ops) == 1 and isinstance(x.test.ops[0], ast.NotEq)
-                         and pv in {y.id for y in ast.walk(x.test) if isinstance(y, ast.Name)}]
+                         and pvs & {y.id for y in ast.walk(x.test) if isinstance(y, ast.Name)}]
                 swaps = [x for x in ast.walk(lp) if isinstance(x, ast.Assign) and isinstance(x.targets[0], ast.Tuple) and isinstance(x.value, ast.Tuple) and len(x.targets[0].elts) == 2
                          and [unparse(e) for e in x.targets[0].elts] == [unparse(e) for e in x.value.elts][::-1]]
                 if fixes and swaps:
